@@ -85,6 +85,19 @@ def excl_backslash(c):
     return False
 
 
+def first_cell(c1):
+    """partition on the first code point: one LaTeX-special character, or 'other' = none of them"""
+    w = P('c1', '\0any')
+    if w == '\0any':
+        return True
+    if w == 'other':
+        for ch in SPECIAL:
+            if c1 == ord(ch):
+                return False
+        return True
+    return c1 == ord(w)
+
+
 def no_backslash(k, *cps):
     for c in cps[:k]:
         if excl_backslash(c):
@@ -92,11 +105,11 @@ def no_backslash(k, *cps):
     return True
 
 
-@lemma('L1.raw_text', 'C17', quick=ks(3), thorough=ks(4), timeout=600, canary=[{'k': 1, 'wrong_oracle': True}],
+@lemma('L1.raw_text', 'C17', quick=ks(2), thorough=ks(2) + by('c1', list(SPECIAL) + ['other'], [{'k': 3, 'timeout': 3000}, {'k': 4, 'timeout': 6000}]), timeout=600, canary=[{'k': 1, 'wrong_oracle': True}],
        covers=['latex_renderer.py:LaTeXRenderer.render_raw_text'])
 def l1_raw_text(c1: int, c2: int, c3: int, c4: int) -> bool:
     """
-    pre: all_ok(cp_ok, P('k'), c1, c2, c3, c4)
+    pre: all_ok(cp_ok, P('k'), c1, c2, c3, c4) and first_cell(c1)
     pre: no_backslash(P('k'), c1, c2, c3, c4)
     post: _
     """
@@ -199,7 +212,7 @@ def excl_l2(holename, k, c1, c2, c3):
     return holename in ('src', 'language') and k > 0
 
 
-@lemma('L2.inline', 'C17', quick=holes(['target', 'text', 'autolink'], 2) + [{'hole': 'src', 'k': 0}], thorough=holes(['target', 'text', 'autolink'], 3) + [{'hole': 'src', 'k': 0}],
+@lemma('L2.inline', 'C17', quick=holes(['target', 'text', 'autolink'], 1) + [{'hole': 'target', 'k': 2}, {'hole': 'src', 'k': 0}], thorough=holes(['target', 'text', 'autolink'], 3) + [{'hole': 'src', 'k': 0}],
        timeout=400, stubs=['urllib.parse.quote -> contract stub', 'tokens built directly'],
        canary=[{'hole': 'src', 'k': 1, 'noexcl': True}],
        covers=['latex_renderer.py:LaTeXRenderer.render_link', 'latex_renderer.py:LaTeXRenderer.render_image',
@@ -228,7 +241,7 @@ def l2_inline(c1: int, c2: int, c3: int, soft: bool) -> bool:
     return True
 
 
-@lemma('L2.code', 'C17', quick=holes(['content'], 2) + [{'hole': 'language', 'k': 0}], thorough=holes(['content'], 3) + [{'hole': 'language', 'k': 0}], timeout=400,
+@lemma('L2.code', 'C17', quick=holes(['content'], 1) + [{'hole': 'language', 'k': 0}], thorough=holes(['content'], 3) + [{'hole': 'language', 'k': 0}], timeout=400,
        canary=[{'hole': 'language', 'k': 1, 'noexcl': True}],
        stubs=['tokens built directly'],
        covers=['latex_renderer.py:LaTeXRenderer.render_inline_code', 'latex_renderer.py:LaTeXRenderer.render_block_code'])
